@@ -121,6 +121,9 @@ func NewParameters(logn int, q, p []uint64, xs, xe DistributionLiteral, ringType
 
 	switch xs := xs.(type) {
 	case ring.Ternary, ring.DiscreteGaussian:
+		if err = checkDistribution(xs.(ring.DistributionParameters)); err != nil {
+			return Parameters{}, fmt.Errorf("invalid secret distribution: %w", err)
+		}
 		params.xs = NewDistribution(xs.(ring.DistributionParameters), logn)
 	default:
 		return Parameters{}, fmt.Errorf("secret distribution type must be Ternary or DiscretGaussian but is %T", xs)
@@ -128,6 +131,9 @@ func NewParameters(logn int, q, p []uint64, xs, xe DistributionLiteral, ringType
 
 	switch xe := xe.(type) {
 	case ring.Ternary, ring.DiscreteGaussian:
+		if err = checkDistribution(xe.(ring.DistributionParameters)); err != nil {
+			return Parameters{}, fmt.Errorf("invalid error distribution: %w", err)
+		}
 		params.xe = NewDistribution(xe.(ring.DistributionParameters), logn)
 	default:
 		return Parameters{}, fmt.Errorf("error distribution type must be Ternary or DiscretGaussian but is %T", xe)
@@ -794,6 +800,32 @@ func checkSizeParams(logN int) error {
 	}
 	if logN < MinLogN {
 		return fmt.Errorf("logN=%d is smaller than MinLogN=%d", logN, MinLogN)
+	}
+	return nil
+}
+
+// checkDistribution checks that the parameters of a distribution can be sampled.
+// The zero values (Ternary{} and Sigma = 0) are accepted: they yield the noiseless instances reported by a warning.
+func checkDistribution(dist ring.DistributionParameters) error {
+	switch dist := dist.(type) {
+	case ring.Ternary:
+		if dist.P != 0 && dist.H != 0 {
+			return fmt.Errorf("%+v: only one of the fields P and H can be set", dist)
+		}
+		// H > N is tolerated: the sampler caps the Hamming weight at N
+		if dist.H < 0 {
+			return fmt.Errorf("%+v: H is negative", dist)
+		}
+		if !(dist.P >= 0 && dist.P < 1) {
+			return fmt.Errorf("%+v: P is not in [0, 1)", dist)
+		}
+	case ring.DiscreteGaussian:
+		if !(dist.Sigma >= 0) || math.IsInf(dist.Sigma, 1) {
+			return fmt.Errorf("%+v: Sigma is not a non-negative real", dist)
+		}
+		if !(dist.Bound >= 0) || math.IsInf(dist.Bound, 1) {
+			return fmt.Errorf("%+v: Bound is not a non-negative real", dist)
+		}
 	}
 	return nil
 }
